@@ -103,8 +103,24 @@ func c06RefDB() fixture.DB {
 		{Iface: "eth1", TS: dayB + 900, Recs: sc(mixed, 19), Drops: 5},
 		{Iface: "eth1", TS: tD1, Recs: sc(v6[:2], 23), Drops: 8},
 		{Iface: "eth1", TS: tD1 + 300, Recs: sc(mixed[1:6], 29), Drops: 9},
+		// the big day: one block whose address columns exceed the readers' smallest buffers (16 KiB), so that
+		// entry counts that disagree with the columns make a reader leave the buffer, not just its filled part
+		{Iface: "eth1", TS: c06BigTS, Recs: c06BigRecs(), Drops: 7},
 	}}
 }
+
+const c06BigTS = dayDec + 86400 + 300
+
+func c06BigRecs() []fixture.Rec {
+	var out []fixture.Rec
+	for i := 0; i < 1028; i++ {
+		out = append(out, rec(fmt.Sprintf("10.7.%d.%d", i>>8, i&255), fmt.Sprintf("10.8.%d.%d", i>>8, i&255), []uint16{80, 443}[i%2], 6, cnt(uint64(100+i), uint64(i%7), 2, uint64(i%3))))
+	}
+	return append(out, scale(r6a, 3), scale(r6b, 5))
+}
+
+// c06IsBig: the big day is only the target of structured .blockmeta mutations (its files are 50x the others').
+func c06IsBig(d *c06Day) bool { return d.ts == c06BigTS-300 && d.iface == "eth1" }
 
 type c06BID struct {
 	iface string
@@ -233,7 +249,7 @@ func c06Image() *c06Img {
 			n++
 		}
 	}
-	if n != len(img.db.Blocks) || len(img.days) != 6 {
+	if n != len(img.db.Blocks) || len(img.days) != 7 {
 		explore.HarnessErrorf("C06: reference database has %d blocks in %d days, image has %d", len(img.db.Blocks), len(img.days), n)
 	}
 	for s := 0; s < c06Listing; s++ {
@@ -558,6 +574,37 @@ func c06FileMuts(img *c06Img, thorough bool, di, f int) []c06Mut {
 		add(c06Mut{class: cls, op: c06OpSwapDay, a: o, lo: 0, hi: n})
 	}
 	if f == c06Blockmeta {
+		// consistent-looking edits of a block's IPv4 / IPv6 entry counts: 4k IPv4 entries fewer and k IPv6
+		// entries more (or the reverse) leave the expected length of the address columns unchanged
+		base := 72 + int(types.ColIdxCount)*(8+9*nb) + 8
+		for j := 0; j < nb; j++ {
+			o := base + 16*j
+			v4, v6 := int(binary.BigEndian.Uint32(orig[o:])), int(binary.BigEndian.Uint32(orig[o+4:]))
+			type sh struct{ d4, d6 int }
+			var shifts []sh
+			for _, k := range []int{1, v4 / 4} {
+				if k >= 1 && v4 >= 4*k && !(k == 1 && v4/4 == 1 && len(shifts) > 0) {
+					shifts = append(shifts, sh{-4 * k, k})
+				}
+			}
+			for _, k := range []int{1, v6} {
+				if k >= 1 && v6 >= k && !(k == 1 && v6 == 1 && len(shifts) > 0 && shifts[len(shifts)-1].d6 == -1) {
+					shifts = append(shifts, sh{4 * k, -k})
+				}
+			}
+			seen := map[sh]bool{}
+			for _, x := range shifts {
+				if seen[x] {
+					continue
+				}
+				seen[x] = true
+				dt := append([]byte{}, orig...)
+				binary.BigEndian.PutUint32(dt[o:], uint32(v4+x.d4))
+				binary.BigEndian.PutUint32(dt[o+4:], uint32(v6+x.d6))
+				add(c06Mut{kind: "blockmeta.blk-v4v6", class: "split-shift", what: fmt.Sprintf("block %d: IPv4 / IPv6 entry counts %d/%d -> %d/%d (same address column length)", j, v4, v6, v4+x.d4, v6+x.d6),
+					op: c06OpContent, cop: c06CopReplace, data: dt, lo: o, hi: o + 8, keepTimes: true})
+			}
+		}
 		add(c06Mut{class: "zero-blocks", what: "a well-formed metadata file with zero blocks", op: c06OpContent, cop: c06CopReplace, data: c06MetaPrefix(orig, nb, 0), lo: 0, hi: n, pairable: true})
 		for keep := 1; keep < nb; keep++ {
 			add(c06Mut{class: "fewer-blocks", what: fmt.Sprintf("a well-formed metadata file describing only the first %d blocks", keep), op: c06OpContent, cop: c06CopReplace, data: c06MetaPrefix(orig, nb, keep), lo: 0, hi: n})
@@ -671,6 +718,8 @@ func c06QuickShapes(m *c06Mut, pos, nb int) []int {
 	meta := m.file == c06Blockmeta
 	q0, q0l := []int{0}, []int{0, c06Listing}
 	switch m.class {
+	case "split-shift":
+		return c06AllShapes // few, and whether an out-of-range read shows depends on the read mode and on the buffers' history
 	case "truncate":
 		if meta {
 			return q0l // every length, every day
@@ -760,8 +809,9 @@ func c06PlanFor(tier string) *c06Plan {
 	gid := 0
 	var keys [][2]int
 	for di, d := range img.days {
-		if !thorough && d.iface != img.ifaces[0] {
-			continue // quick: the three days of the first interface (first, middle, last directory)
+		big := c06IsBig(d)
+		if !thorough && d.iface != img.ifaces[0] && !big {
+			continue // quick: the three days of the first interface (first, middle, last directory), and the big day
 		}
 		pos := 0
 		for o := 0; o < di; o++ {
@@ -771,6 +821,9 @@ func c06PlanFor(tier string) *c06Plan {
 		}
 		for f := 0; f < c06NFiles; f++ {
 			var all, ms []c06Mut
+			if big && f != c06Blockmeta {
+				continue
+			}
 			if f == c06Dirname {
 				all = c06DirMuts(img, thorough, di)
 			} else {
@@ -779,6 +832,18 @@ func c06PlanFor(tier string) *c06Plan {
 			for i := range all {
 				m := all[i]
 				m.shapes = c06AllShapes
+				if big {
+					switch {
+					case m.class == "split-shift", m.class == "zero-blocks", m.class == "empty", m.class == "delete":
+					case m.class == "bitflip" && (m.kind == "blockmeta.blk-v4" || m.kind == "blockmeta.blk-v6" || m.kind == "blockmeta.nblocks" || m.kind == "blockmeta.total-v4"):
+					default:
+						continue
+					}
+					m.gid = gid
+					gid++
+					ms = append(ms, m)
+					continue
+				}
 				if m.heavy {
 					// 16 MiB .. 1 GiB lengths: two columns, three magnitudes, one shape
 					if c := c06TableColumn(len(d.blks), m.a); (c != int(types.SIPColIdx) && c != int(types.BytesRcvdColIdx)) || (m.b != 0 && m.b != 3 && m.b != 6) {
@@ -1650,9 +1715,9 @@ var _ = bytes.Equal
 func init() {
 	register("C06", &explore.Scenario{
 		ID: "C06", Name: "single (thorough: paired) mutations of every file and day-directory name of a valid database, read by the real engine in an executor child process", Level: "fault_enumeration",
-		Rule: "reference database: 2 interfaces x 3 days (month change) x 1-3 blocks (12 blocks, v4/v6/mixed) written by the real DBWriter (lz4). case = (day directory, file) x slice of its mutation list; files = 8 column files, .blockmeta, the directory name. execution = one mutation x one read shape (Q0 raw+time; Q1 sip,dip,time where dport=80 in low-memory mode; Q2 dport,proto,time where snet is IPv6; L listing through ReadMetadata over whole range, partial range and each undamaged day), run in an executor child process. " +
-			"THOROUGH: all 6 days; per file every truncation length, empty, delete, EVERY single-bit flip, every byte <- 00/ff, appended garbage (1,16,88,4096 bytes), exchange with every sibling column (.blockmeta: with sip and bytes_rcvd), exchange with the same-named file of every other day of both interfaces, .blockmeta replaced by well-formed files with zero / fewer blocks; directory names: suffix removed/empty/foreign/zero/wrong field count/overlong/second underscore/characters outside the code table, every suffix character x 6 values, every suffix truncation, timestamp prefix non-numeric/unaligned/other day/negative/overflowing; all x 4 shapes. Exception: bit flips that turn a stored block length into 16 MiB..1 GiB (top byte of Len/RawLen, bits 0-6; seconds and up to 2 GiB each) run for 2 columns x 3 magnitudes x Q0 under a machine-wide 4-slot lock. Plus every unordered PAIR of mutations from a reduced list (empty, half truncation, first bit, +16 bytes, .blockmeta deleted / zero blocks, 3 directory names) in different calendar days x 4 shapes. " +
-			"QUICK: the 3 days of eth0 (first/middle/last directory; eth1 is the untouched interface); all structural mutations (empty, delete, append, exchanges, zero/fewer blocks, ~28 directory names) x 4 shapes in the first day, x {Q0,L} in the others; every truncation length of every .blockmeta x {Q0,L} and of every column of the first day x Q0; bit flips: every bit of the first/last 8 bytes and of the first byte of every block of every column of the first day x Q0; every bit of .blockmeta header, block tables of sip and bytes_rcvd, first timestamp and per-block counts/deltas in the first day x {Q0,L}, lowest and top bit of each of those bytes in the middle day and top bit in the last day x Q0 (lengths >= 64 KiB only through the top bit of the two high bytes). " +
+		Rule: "reference database: 2 interfaces x 3 days (month change) x 1-3 blocks (12 blocks, v4/v6/mixed) plus one day on eth1 with one block of 1030 flows (address columns larger than the readers' smallest buffers; target of the structured .blockmeta mutations only: count shifts, count / nblocks bit flips, zero blocks, empty, delete), written by the real DBWriter (lz4). case = (day directory, file) x slice of its mutation list; files = 8 column files, .blockmeta, the directory name. execution = one mutation x one read shape (Q0 raw+time; Q1 sip,dip,time where dport=80 in low-memory mode; Q2 dport,proto,time where snet is IPv6; L listing through ReadMetadata over whole range, partial range and each undamaged day), run in an executor child process. " +
+			"THOROUGH: all 6 days; per file every truncation length, empty, delete, EVERY single-bit flip, every byte <- 00/ff, appended garbage (1,16,88,4096 bytes), exchange with every sibling column (.blockmeta: with sip and bytes_rcvd), exchange with the same-named file of every other day of both interfaces, .blockmeta replaced by well-formed files with zero / fewer blocks, per block the IPv4/IPv6 entry counts shifted by (-4k,+k) / (+4k,-k) (k = 1, maximal: the address columns' expected length stays the same); directory names: suffix removed/empty/foreign/zero/wrong field count/overlong/second underscore/characters outside the code table, every suffix character x 6 values, every suffix truncation, timestamp prefix non-numeric/unaligned/other day/negative/overflowing; all x 4 shapes. Exception: bit flips that turn a stored block length into 16 MiB..1 GiB (top byte of Len/RawLen, bits 0-6; seconds and up to 2 GiB each) run for 2 columns x 3 magnitudes x Q0 under a machine-wide 4-slot lock. Plus every unordered PAIR of mutations from a reduced list (empty, half truncation, first bit, +16 bytes, .blockmeta deleted / zero blocks, 3 directory names) in different calendar days x 4 shapes. " +
+			"QUICK: the 3 days of eth0 (first/middle/last directory; eth1 is the untouched interface); all structural mutations (empty, delete, append, exchanges, zero/fewer blocks, IPv4/IPv6 count shifts, ~28 directory names) x 4 shapes in the first day, x {Q0,L} in the others; every truncation length of every .blockmeta x {Q0,L} and of every column of the first day x Q0; bit flips: every bit of the first/last 8 bytes and of the first byte of every block of every column of the first day x Q0; every bit of .blockmeta header, block tables of sip and bytes_rcvd, first timestamp and per-block counts/deltas in the first day x {Q0,L}, lowest and top bit of each of those bytes in the middle day and top bit in the last day x Q0 (lengths >= 64 KiB only through the top bit of the two high bytes). " +
 			"non-trivial = the reader noticed the damage (error, panic, death, BlocksCorrupted>0 or rows differing from the intact result), distinct by (mutation, shape); outcomes = distinct (rows hash, statistics / error class)",
 		Cases: func(t string) int { return len(c06PlanFor(t).targets) },
 		Bound: func(t string) int { return 0 },
